@@ -505,6 +505,9 @@ class Engine:
         self.solver_seconds = 0.0
         self.algebraic = {}
         self.hooks = {}           # misc extension points: 'getattr', 'setattr', 'binop', 'call', 'truthy', 'pow'
+        self.borrow_args = None   # predicate on qualnames: functions whose tensor arguments are owned by the caller (see tensor.install)
+        self.borrow_enter = self.borrow_exit = None
+        self.frame_violations = []   # ownership violations observed while executing (reported by props.base.Report.result)
         self.max_depth = 40
         self._ob_cache = {}
         self.skip_obligations = False
@@ -575,11 +578,18 @@ class Engine:
             ob.status, ob.backend, ob.model = 'refuted', backend, model
 
     # ------------------------------------------------------------ exploring
-    def explore(self, run, label=''):
-        """run(cx) is executed once per path. Returns list of (cx, outcome)."""
+    def explore(self, run, label='', deadline=None, keep=True):
+        """run(cx) is executed once per path. Returns list of (cx, outcome).  With a deadline (time.time() value) the exploration stops
+        when it is reached; the number of unexplored decision prefixes is left in self.truncated (bounded stand-ins only)."""
+        import time as _time
         results = []
         self.pending = [[]]
+        self.truncated = 0
         while self.pending:
+            if deadline is not None and _time.time() > deadline:
+                self.truncated = len(self.pending)
+                self.pending = []
+                break
             dec = self.pending.pop()
             cx = Ctx(self, dec)
             try:
@@ -589,8 +599,9 @@ class Engine:
             except PyExc as e:
                 out = ('raise', e)
             self.paths += 1
-            results.append((cx, out))
-            if self.paths > 20000:
+            if keep:
+                results.append((cx, out))
+            if self.paths > 20000 and deadline is None:
                 raise Unsupported('path explosion (>20000 paths)')
         return results
 
@@ -1608,6 +1619,10 @@ class Engine:
             raise Unsupported(f'call depth > {self.max_depth} at {q} (recursion without a contract?)')
         fr = Frame(fv, fv.module, loc, parent=fv.closure)
         cx.depth += 1
+        restore = None
+        if self.borrow_args is not None and self.borrow_args(q):
+            # ownership (frame) condition of this function: tensors received as arguments belong to the caller
+            restore = self.borrow_enter(list(loc.values()))
         try:
             if isinstance(fv.node, ast.Lambda):
                 return self.eval(fv.node.body, fr, cx)
@@ -1618,6 +1633,8 @@ class Engine:
             return None
         finally:
             cx.depth -= 1
+            if restore is not None:
+                self.borrow_exit(restore)
 
 
 class _ClassFrame(Frame):
